@@ -140,6 +140,12 @@ func (eng *Engine) Verify(fn *ssa.Function, spec *FuncSpec, tags map[string]bool
 				}
 				t := e.evalSpec(eng.ld.specFunc(spec, c), full, hout, h0)
 				e.addObligation(f, "ensures", c, labelOr(c, fmt.Sprintf("ensures.L%d", c.Line)), gout, t, fn.Pos())
+			case KReturns:
+				if !e.wantClause(c) {
+					continue
+				}
+				v := e.evalSpecVal(eng.ld.specFunc(spec, c), args, h0)
+				e.addObligation(f, "ensures", c, labelOr(c, fmt.Sprintf("returns.L%d", c.Line)), gout, eq(results[0].T, v.T), fn.Pos())
 			case KCover:
 				if !e.wantClause(c) {
 					continue
